@@ -244,15 +244,17 @@ def run_C07(repo, tier, seed):
                         failures.append({"key": "shift-curve-" + key, "input": dict(case, shift_s=sh), "observed": "master curve changes after shifting the time origin"})
                 if len(failures) >= 3:
                     break
-            # fixed-offset time zone: same wall-clock text declared in another fixed-offset zone
-            try:
-                tzc = snapshot(workflow(repo, d2, 1.0, tz="Etc/GMT-7"), -7 * 3600)
-                ev += 1
-                for key in ("flags", "storm", "zi", "pairs"):
-                    if base[key] != tzc[key]:
-                        failures.append({"key": "tz-" + key, "input": dict(case, tz="Etc/GMT-7"), "observed": "%s differ when the same wall-clock data is declared in a fixed-offset zone" % key})
-            except Exception as e:
-                failures.append({"key": "raised-tz", "input": case, "observed": "%s: %s" % (type(e).__name__, e)})
+            # fixed-offset time zones: the same wall-clock text declared east and west of Greenwich
+            for zone, off in (("Etc/GMT-7", 7 * 3600), ("Etc/GMT+5", -5 * 3600), ("Pacific/Marquesas", -(9 * 3600 + 1800))):
+                try:
+                    tzc = snapshot(workflow(repo, d2, 1.0, tz=zone), -off)
+                    ev += 1
+                    for key in ("flags", "storm", "zi", "pairs"):
+                        if base[key] != tzc[key]:
+                            failures.append({"key": "tz-" + key, "input": dict(case, tz=zone),
+                                             "observed": "%s are not shifted by exactly the zone offset when the same wall-clock data is declared in %s" % (key, zone)})
+                except Exception as e:
+                    failures.append({"key": "raised-tz", "input": dict(case, tz=zone), "observed": "%s: %s" % (type(e).__name__, e)})
             if len(samples) < 2:
                 samples.append(case)
         if len(failures) >= 3:
@@ -351,7 +353,11 @@ def run_C13(repo, tier, seed):
             wl = dict(con.execute("SELECT epoch, zeta_mm FROM water_level"))
             matched = dict(con.execute("SELECT interval_start_epoch, storm_start_epoch FROM zeta_interval_storm"))
             zi = {(a, t): b for a, t, b in con.execute("SELECT start_epoch, interval_type, thru_epoch FROM zeta_interval")}
-            depth = dict(con.execute("SELECT storm_start_epoch, total_depth_mm FROM storm_total_rain_depth"))
+            # the storm's total rain depth, recomputed from the rainfall rows of exactly its steps
+            depth = {}
+            for s0, s1 in con.execute("SELECT start_epoch, thru_epoch FROM storm").fetchall():
+                depth[s0] = sum(r * (t - f) / 3600.0 for f, t, r in con.execute(
+                    "SELECT from_epoch, thru_epoch, rainfall_intensity_mm_h FROM rainfall_intensity WHERE from_epoch >= ? AND from_epoch < ?", (s0, s1)))
             grid_levels = {r[0] for r in con.execute("SELECT zeta_number FROM discrete_zeta")}
             zmin, zmax = con.execute("SELECT min(zeta_mm), max(zeta_mm) FROM water_level").fetchone()
             if not (min(grid_levels) * grid <= zmin and zmax <= (max(grid_levels) + 1) * grid):
